@@ -33,3 +33,13 @@ Definition check_point (c : bool * nat * Z * bool * arr * obs) : bool :=
 Definition check_conn (c : Z * bool * arr * obs) : bool :=
   let '(si, cd, stored, o) := c in
   obs_eqb (Ok (cell_conn si cd stored)) o.
+
+(* normalise() and normalise(start_index=1, remove_empty_columns=True) of an array as the
+   implementation presented it (a whole or a subspaced construct) *)
+Definition check_norm_cells (c : arr * obs * obs) : bool :=
+  let '(a, o0, o1) := c in
+  obs_eqb (normalise_cells 0 false a) o0 && obs_eqb (normalise_cells 1 true a) o1.
+
+Definition check_norm_ids (c : arr * obs * obs) : bool :=
+  let '(a, o0, o1) := c in
+  obs_eqb (normalise_ids 0 false a) o0 && obs_eqb (normalise_ids 1 true a) o1.
